@@ -301,13 +301,22 @@ def worker(item):
             raise
         except Exception as e:  # noqa: BLE001
             import traceback
-            return [('no-exception', 'exc', f'{type(e).__name__}: {e} @ {traceback.format_exc()[-500:]}', None, taken)]
+            return [('no-exception', 'exc', f'{type(e).__name__}: {e} @ {traceback.format_exc()[-500:]}',
+                     symx.reachable(c), taken)]
+        path_model = []
+
+        def pm():
+            if not path_model:
+                path_model.append(symx.reachable(c))
+            return path_model[0]
         for label, got, want in eqs:
             if z3.is_expr(got) and z3.is_bool(got):
                 v = symx.prove(c, got, label, timeout_ms=8000)
                 obs.append((label, v.status, None, v.model, list(taken)))
             elif not z3.is_expr(got) and not z3.is_expr(want) and not symx.is_sym(got):
-                obs.append((label, 'proved' if got == want else 'exc', f'{got!r} instead of {want!r}', None, list(taken)))
+                ok = got == want
+                obs.append((label, 'proved' if ok else 'exc', f'{got!r} instead of {want!r}', None if ok else pm(),
+                            list(taken)))
             else:
                 claim = z3.simplify(lift(got) == lift(want))
                 if z3.is_true(claim):
